@@ -131,13 +131,13 @@ def findOwner (x : String) : Stack → Except Err (String × Bool)
       else findOwner x rest
 
 /-- names a function / class namespace treats as nonlocal, in the order the code visits them;
-    a method skips `__class__` (PEP 3135's implicit cell) and notes that zero-argument `super()` is used -/
+    `__class__` (PEP 3135's implicit cell) is skipped - a method notes that it is used, a function nested in a
+    method needs nothing: Python closes over the loader's cell by itself -/
 def nonlocalCandidates (kind : ScopeKind) (s : SymScope) (isMethod : Bool) : List String × Bool :=
   match kind with
   | .function =>
     let all := s.frees ++ s.nonlocals
-    if isMethod then (all.filter (· != "__class__"), all.contains "__class__")
-    else (all, false)
+    (all.filter (· != "__class__"), isMethod && all.contains "__class__")
   | _ => ((s.symbols.filter fun i => i.isNonlocal || i.isFree).map (·.name), false)
 
 def buildOuterMap (stack : Stack) : List String → Except Err (List (String × String))
@@ -256,6 +256,7 @@ def Nsp.getLoad (n : Nsp) (bound : List String) (name : String) : Except Err Exp
       | none => .ok (.name name)
   | .class_ =>
     if bound.contains name then .ok (.name name)
+    else if name == "__class__" then .ok (.name name)     -- read by a lambda written in the class body: the loader's cell
     else if n.globalsInComp.contains name then .ok (.name name)
     else match n.sym.lookup name with
       | none => .error (.keyError name)
